@@ -73,7 +73,7 @@ func init() {
 			"distinct = distinct (world, request text); non-trivial = the request reached the VM (decoded and compiled by the server)",
 		Assumptions: []string{"FileIOAllowed=false: functions that touch the file system return before doing so",
 			"a panic observed at the caller of service.Evaluate is what the gRPC server would die of (no recover in the handler path)"},
-		Quick:    24000, Thorough: 1000000,
+		Quick: 24000, Thorough: 1000000,
 		CaseCap:  60 * time.Second,
 		Required: []string{"outcome_ok", "outcome_error", "world_empty", "world_basic", "world_overlay", "fn_ok:top", "fn_ok:histogram", "fn_ok:take", "fn_ok:find", "fn_ok:map", "extreme_cases", "wrapped"},
 		Run: func(c *core.Ctx) {
@@ -245,7 +245,6 @@ func init() {
 			var rerr error
 			var panicked bool
 			var class, frame, stack string
-			t0 := time.Now()
 			// No per-request watchdog goroutine dump (it costs more than the request): a request
 			// that never returns is caught by the framework's per-case cap, which applies the
 			// same quiescence rule to the whole child (hang@<frame> if every goroutine is parked,
@@ -253,7 +252,6 @@ func init() {
 			panicked, class, frame, stack = core.Protect(func() {
 				_, rerr = service.Evaluate(context.Background(), request)
 			})
-			c.Max("max_ms:"+name, time.Since(t0).Milliseconds())
 			switch {
 			case panicked:
 				c.Count("outcome_panic")
